@@ -103,6 +103,15 @@ def compare_models(kind, stack, slices, lead, rt=RT, what='parameter'):
     """stack: observables dict of the stacked call; slices: {b: observables dict}"""
     for b, ob in slices.items():
         for k, v in ob.items():
+            if kind == 'cacg' and k == 'eigenvalues':
+                # positive numbers that enter through 1/lambda and log lambda: every one matters relatively, the
+                # floored ones included (a floor that depends on other slices moves log_pdf)
+                a_ = np.asarray(take(stack[k], b, lead), dtype=float)
+                v_ = np.asarray(v, dtype=float)
+                if a_.shape != v_.shape or np.any(np.abs(np.log(a_) - np.log(v_)) > 1e-5):
+                    return ('%s eigenvalues of the stack at leading index %s differ relatively from the slice run alone: %s vs %s'
+                            % (what, b, a_.ravel()[:4].tolist(), v_.ravel()[:4].tolist()))
+                continue
             d = close(take(stack[k], b, lead), v, rt)
             if d:
                 return '%s %s of the stack at leading index %s differs from the slice run alone: %s' % (what, k, b, d)
@@ -244,9 +253,11 @@ def coq_dist(rng, kind, y, sal, opt, ye, M, LP, lead):
     return 'allR [%s]' % '; '.join(parts)
 
 
-def _case_dist(rng, tier, kind):
+def _case_dist(rng, tier, kind, force_degenerate=False):
     k0 = kind.split(':')[0]
     lead = lead_shape(rng, cap=8 if k0 == 'bingham' else 125)
+    if force_degenerate:
+        lead = tuple(int(v) for v in rng.integers(2, 4, int(rng.integers(1, 3))))
     D = int(rng.integers(2, 5)) if k0 != 'bingham' else int(rng.integers(2, 4))
     if k0 == 'gaussian' and rng.random() < 0.2:
         D = 1
@@ -260,6 +271,14 @@ def _case_dist(rng, tier, kind):
     else:
         y = (rng.normal(size=(*lead, N, D)) + off) * scale
         ye = rng.normal(size=(*lead, int(rng.integers(1, 5)), D)) + off
+    degenerate_slice = False
+    if k0 == 'cacg' and lead and int(np.prod(lead)) >= 2 and (force_degenerate or rng.random() < 0.35):
+        # one slice of the stack is rank deficient (all its frames lie in a (D-1)-dimensional subspace): its smallest
+        # eigenvalue is floored relative to ITS OWN largest one, whatever the other slices look like
+        degenerate_slice = True
+        b = tuple(int(rng.integers(0, n)) for n in lead)
+        basis = crandn(rng, (D - 1, D))
+        y[b] = crandn(rng, (N, D - 1)) @ basis * float(rng.choice([1e-3, 1.0, 1e3]))
     if k0 == 'bingham':
         ye = ye / np.linalg.norm(ye, axis=-1, keepdims=True)
     sal = None
@@ -271,6 +290,9 @@ def _case_dist(rng, tier, kind):
     if k0 == 'cacg':
         opt = dict(hermitize=bool(rng.random() < 0.7), covariance_norm=['eigenvalue', 'trace', False][int(rng.integers(0, 3))],
                    eigenvalue_floor=float(rng.choice([1e-10, 1e-6])), iterations=int(rng.integers(1, 4)))
+        if degenerate_slice:
+            opt['iterations'] = 1          # one step: later steps divide by the floored spectrum (1e10 amplification)
+            opt['covariance_norm'] = ['trace', False, 'eigenvalue'][int(rng.integers(0, 3))]
     if k0 == 'vmf' and rng.random() < 0.5:
         opt = dict(min_concentration=float(rng.choice([1e-10, 0.5])), max_concentration=float(rng.choice([500, 20, 3])))
     if k0 == 'bingham' and rng.random() < 0.3:
@@ -581,6 +603,8 @@ def cases(rng, tier):
             if kind == 'bingham' and rep >= (3 if q else 30):
                 continue
             out.append(case_dist(rng, tier, kind))
+    for rep in range(6 if q else 50):
+        out.append(case_dist(rng, tier, 'cacg', force_degenerate=True))
     for rep in range(10 if q else 100):
         for name in MIX:
             if name == 'cbmm' and rep >= (2 if q else 20):
